@@ -402,6 +402,9 @@ func ruleSER1(c *Ctx) {
 				if f.Embedded() {
 					continue
 				}
+				if !f.Exported() {
+					continue // bookkeeping of the reader (which stream format it is decoding), not part of the record
+				}
 				found := false
 				for _, t := range ws {
 					if t.Desc == f.Name() || strings.Contains(t.Desc, "("+f.Name()+")") {
